@@ -155,6 +155,8 @@ def comparable(v):
 def attached_handles(w, rid=None, allow_removed=False):
     out = []
     for h in w.handles:
+        if h is None:
+            continue
         ob = w.objs[h.oid]
         if not ob.alive:
             continue
